@@ -9,6 +9,7 @@
 import AJ.Model.Run
 import AJ.Model.Lax
 import AJ.Model.Full
+import AJ.Model.Flat
 namespace AJ.Dyn
 open AJ.Run
 
@@ -383,7 +384,14 @@ def parseDiag (s : String) : Option (List (Nat × Bool × Bool)) :=
     | [k, a, b] => do pure (← k.toNat?, a = "1", b = "1")
     | _ => none
 
-def isDynCmd (cmd : String) : Bool := cmd = "replayA" || cmd = "replayB"
+def isDynCmd (cmd : String) : Bool := cmd = "replayA" || cmd = "replayB" || cmd = "flatreq"
+
+/-- `flatreq cfg…`: the requirements of every atomic job in the flattened graph (`AJ.Flat.flatReq`), or `not-flattenable`
+    when a nested scheduler is empty -/
+def flatReqLine (c : Cfg) : String :=
+  if !AJ.Flat.noEmptyNested c then "not-flattenable" else
+  "ok " ++ ";".intercalate (((List.range c.n).filter fun j => 0 < j && !c.isSched j).map fun j =>
+    toString j ++ ":" ++ showNats ((AJ.Flat.flatReq c c.n j).eraseDups))
 
 def handle (cmd : String) (toks : List String) : String :=
   let kv := kvOf toks
@@ -391,6 +399,7 @@ def handle (cmd : String) (toks : List String) : String :=
   | none => "bad-request cfg"
   | some c =>
     if !c.wf then "bad-request cfg-not-wf" else
+    if cmd = "flatreq" then flatReqLine c else
     match getKV kv "ev" with
     | none => "bad-request ev"
     | some evs =>
